@@ -142,10 +142,10 @@ def make_harness(tier):
             extras = ctx.pick(f"extras{c}", extras_opts if not small else extras_opts[-1:])
             fill = ctx.pick(f"fill{c}", ("plain", "blank+comment") if not small else ("blank+comment",))
             style = ctx.pick(f"style{c}", {"python": ("plain",), "typescript": ("plain", "abstract", "exported", "hash-private", "modifier-private"),
-                                           "javascript": ("plain", "hash-private"), "rust": ("plain", "generic")}[lang]) if c == 0 else "plain"
+                                           "javascript": ("plain", "hash-private"), "rust": ("plain", "generic")}[lang]) if (c == 0 and (quick or (ov == "none" and nclasses == 1))) else "plain"
             L, pub, loc, hl = gen_class(lang, name, n_pub, n_priv, extras, fill != "plain",
                                         fill != "plain", len(lines) + 1, style)
-            if lang == "python" and c == 1:
+            if lang == "python" and c == 1 and (quick or (ov == "none" and classes[0][4] == extras_opts[0])):
                 # the class may be defined anywhere a class statement can stand; it is judged like any other class
                 # (the enclosing Holder class is not judged: its own line count is a matter of reading)
                 place = ctx.pick("placement1", ("top-level", "nested-in-class", "inside-method", "inside-function", "inside-except-block", "inside-match-case"))
@@ -157,12 +157,12 @@ def make_harness(tier):
                         "inside-match-case": (["match mode:", "    case 1:"], 8, ["    case _:", "        pass"])}[place]
                 L = wrap[0] + [(" " * wrap[1] + l) if l else l for l in L] + wrap[2]
                 hl += len(wrap[0])
-            classes.append((name, pub, loc, hl))
+            classes.append((name, pub, loc, hl, extras))
             lines += L + [""]
         content = "\n".join(lines)
         vs = _run(SRPRule, lang, content, {"srp": cfg})
         ctx.require("only-srp-violations", all(v.rule_id == "srp.violation" for v in vs))
-        for name, pub, loc, hl in classes:
+        for name, pub, loc, hl, _extras in classes:
             mine = [v for v in vs if f"'{name}'" in v.message]
             kw = "Manager" in name
             ctx.cover("reported" if mine else "clean")
